@@ -322,6 +322,15 @@ class Scenario:
                     dirs.append((d[0], list(d[1]), symref))
                 tbl.setdefault(blk, {})
                 tbl[blk][disp] = dirs
+        # ---- block-keyed tables (one value per block; they describe the block as a whole) ----------------
+        if spec.get("blockaux"):
+            for n, (bid, blk) in enumerate(self.blocks.items()):
+                if isinstance(blk, gtirb.CodeBlock):
+                    _auxdata.sccs.get_or_insert(m)[blk] = n
+                    _auxdata.profile.get_or_insert(m)[blk] = 100 + n
+                else:
+                    _auxdata.types.get_or_insert(m)[blk] = "t%d" % n
+                    _auxdata.encodings.get_or_insert(m)[blk] = "string"
         self.functions = gtirb_functions.Function.build_functions(m) if self.func_uuids else []
         self.orig_block_pos = {}
         for sect in self.sections:
@@ -361,6 +370,7 @@ class Scenario:
             "decline": "<decline>",
             "trail_label": "mov eax, %d\ntl_%d:" % (k, mi),
             "trail_label_data": ".byte %d\ntl_%d:" % (k & 0xFF, mi),
+            "string": '.string "h%d"' % (mi % 10),
             "alias_data": "jmp .Lskip\nt1_%d:\nt2_%d:\n.byte %d\n.Lskip:\nmov eax, %d" % (mi, mi, k & 0xFF, k),
         }
         if name.startswith("jmp:"):
